@@ -11,7 +11,9 @@
 //! The file is produced by the reference writer (shared_b0417/reffile.rs), opened with the REAL
 //! reader and every queried object is fetched with `PdfReader::get_object`.
 //! Answer: `v<val>` | `null` | `stm` | `other` | `err:<class>` per query, comma separated;
-//! `open-err:<class>` when the file does not open.
+//! `open-err:<class>` when the file does not open.  The queries are asked in five orders (as given,
+//! reversed, ascending, descending, rotated), each order on one reader, and one by one on fresh
+//! readers; when an order answers differently from the given one, `!<order>:<its answers>` follows.
 use oxiharness::*;
 #[path = "../shared_b0417/reffile.rs"]
 mod reffile;
@@ -157,33 +159,65 @@ fn run(req: &str) -> String {
     if let Ok(dir) = std::env::var("C04_DUMP") {
         let _ = std::fs::write(dir, &bytes);
     }
-    let mut shared = match open(&bytes, &r.mode) {
-        Ok(x) => x,
-        Err(e) => return e,
-    };
-    let mut outs = vec![];
-    let mut cache_dep = false;
-    for (n, g) in &r.queries {
-        let a = match shared.get_object(*n, *g) {
+    if let Err(e) = open(&bytes, &r.mode) {
+        return e;
+    }
+    let ask = |rd: &mut PdfReader<Cursor<Vec<u8>>>, n: u32, g: u16| -> String {
+        match rd.get_object(n, g) {
             Ok(o) => show_obj(o),
             Err(e) => format!("err:{}", err_class(&e)),
-        };
-        // the same question to a reader that has answered nothing else
-        let b = match open(&bytes, &r.mode) {
-            Ok(mut fr) => match fr.get_object(*n, *g) {
-                Ok(o) => show_obj(o),
-                Err(e) => format!("err:{}", err_class(&e)),
-            },
-            Err(e) => e,
-        };
-        if a != b {
-            cache_dep = true;
         }
-        outs.push(a);
+    };
+    // The same questions in several ORDERS, each order on ONE reader (a reader keeps caches:
+    // object_cache, object_stream_cache), plus every question to a reader that has answered
+    // nothing else.  The answers are reported in the order of the request.
+    let nq = r.queries.len();
+    let mut orders: Vec<(String, Vec<usize>)> = vec![];
+    let ident: Vec<usize> = (0..nq).collect();
+    let mut rev = ident.clone();
+    rev.reverse();
+    let mut asc = ident.clone();
+    asc.sort_by_key(|&i| r.queries[i]);
+    let mut desc = asc.clone();
+    desc.reverse();
+    // streams (objects that answer `stm`) last / first is covered by asc/desc in most plans; one
+    // rotation moves the middle of the list to the front
+    let mut rot = ident.clone();
+    if nq > 2 {
+        rot.rotate_left(nq / 2);
     }
-    let mut s = if outs.is_empty() { ".".to_string() } else { outs.join(",") };
-    if cache_dep {
-        s.push_str("!order-dependent");
+    for (name, o) in [("given", ident), ("rev", rev), ("asc", asc), ("desc", desc), ("rot", rot)] {
+        if !orders.iter().any(|(_, x)| *x == o) {
+            orders.push((name.to_string(), o));
+        }
+    }
+    let mut lists: Vec<(String, Vec<String>)> = vec![];
+    for (name, o) in &orders {
+        let mut rd = match open(&bytes, &r.mode) {
+            Ok(x) => x,
+            Err(e) => return e,
+        };
+        let mut ans = vec![String::new(); nq];
+        for &i in o {
+            ans[i] = ask(&mut rd, r.queries[i].0, r.queries[i].1);
+        }
+        lists.push((name.clone(), ans));
+    }
+    let mut fresh = vec![];
+    for (n, g) in &r.queries {
+        fresh.push(match open(&bytes, &r.mode) {
+            Ok(mut fr) => ask(&mut fr, *n, *g),
+            Err(e) => e,
+        });
+    }
+    lists.push(("fresh".to_string(), fresh));
+    let show = |v: &Vec<String>| if v.is_empty() { ".".to_string() } else { v.join(",") };
+    let mut s = show(&lists[0].1);
+    for (name, l) in &lists[1..] {
+        if *l != lists[0].1 {
+            // order-dependent answers: the deviating order's full answer list follows
+            s.push_str(&format!("!{}:{}", name, show(l)));
+        }
     }
     s
 }
